@@ -78,6 +78,10 @@ impl<'a> Iterator for ChannelSpecIterator<'a> {
                 self.chars.next();
             }
             match lexical_core::parse_partial(self.chars.as_slice()) {
+                // A well formed number which is too large is a value fault, not a syntax fault
+                Err(lexical_core::Error::Overflow(_) | lexical_core::Error::Underflow(_)) => {
+                    Err(ErrorCode::DataOutOfRange)
+                }
                 // Nothing consumed: no number where one is required (e.g. `1!!2`)
                 Ok((_, 0)) | Err(_) => Err(ErrorCode::ExpressionError),
                 Ok((n, len)) => {
